@@ -7,6 +7,8 @@ import (
 	"errors"
 	"fmt"
 	"io"
+	"net"
+	"syscall"
 	"testing"
 	"time"
 
@@ -114,8 +116,9 @@ func c18loop(interval time.Duration, failAt int, quitTick int, quitDelta time.Du
 }
 
 // (b) through a real client on the virtual network
-func c18client(intervalS int64, mode string, k int, delta time.Duration) func() {
+func c18client(intervalS int64, mode0 string, k int, delta time.Duration) func() {
 	return func() {
+		mode := mode0
 		vrt.Quiet(true)
 		interval := secs(intervalS)
 		// the server answers a stream close with its own and closes; everything else is driven by the harness
@@ -126,16 +129,30 @@ func c18client(intervalS int64, mode string, k int, delta time.Duration) func() 
 		if intervalS == 0 {
 			interval = 30 * time.Second
 		}
+		if mode == "hook-fails-reconnect" {
+			// first Connect: the session is negotiated but the application's post-connect hook fails, so
+			// Connect returns an error and the application disconnects; then it connects again at once
+			s.cl.PostConnectHook = func() error { return errors.New("roster request failed") }
+			if err := s.cl.Connect(); err == nil {
+				vrt.Fail("C18|harness|hook", "Connect did not report the hook's error")
+				return
+			}
+			_ = s.cl.Disconnect()
+			vrt.WaitIdle()
+			s.cl.PostConnectHook = nil
+			mode = "after-failed-hook"
+		}
 		if err := s.cl.Connect(); err != nil {
 			vrt.Fail("C18|harness|connect", "%v", err)
 			return
 		}
 		vrt.WaitIdle()
-		conn := s.conn(0)
+		conn := s.conn(len(s.conns) - 1)
 		t0 := vrt.VNow()
 		nPing := 0
 		dead := time.Duration(-1)
-		if mode == "pingfail" {
+		timeoutKind := mode == "pingfail-timeout"
+		if mode == "pingfail" || mode == "pingfail-timeout" {
 			conn.raw.Peer().WriteFault = func(c *vnet.Conn, p []byte) (int, error) {
 				if string(p) == "\n" {
 					nPing++
@@ -144,9 +161,16 @@ func c18client(intervalS int64, mode string, k int, delta time.Duration) func() 
 					if dead < 0 {
 						dead = vrt.VNow()
 					}
-					return 0, errors.New("write: connection timed out")
+					if timeoutKind {
+						// what a write to a vanished TCP peer returns: a net.Error that says Timeout() and Temporary()
+						return 0, &net.OpError{Op: "write", Net: "tcp", Err: syscall.ETIMEDOUT}
+					}
+					return 0, errors.New("write: broken pipe")
 				}
 				return -1, nil
+			}
+			if mode == "pingfail-timeout" {
+				mode = "pingfail"
 			}
 		}
 		vrt.Quiet(false)
@@ -157,11 +181,27 @@ func c18client(intervalS int64, mode string, k int, delta time.Duration) func() 
 			conn.close()
 		}
 		var t1 time.Duration
-		if mode == "disconnect-reconnect" || mode == "server-close-reconnect" {
+		if mode == "hook-fails-reconnect" {
+			// handled before the first Connect below
+		}
+		if mode == "drop-refused-resume" {
+			vrt.Sleep(time.Duration(k)*interval + delta)
+			s.w.Listeners["example.org:5222"].Accept = func(int, *vnet.Conn) (func(), error) { return nil, vnet.ErrRefused }
+			conn.close()
+			// the application (a StreamManager) retries at once, while the old session is still being torn down
+			err := s.cl.Resume()
+			vrt.Log("resume against a refusing server: err=%v", err != nil)
+			vrt.Sleep(3 * interval)
+			vrt.WaitIdle()
+			return // the verdict function reports a panic
+		}
+		if mode == "disconnect-reconnect" || mode == "server-close-reconnect" || mode == "drop-resume" {
 			// the session ends through the stream-close handshake, then the same client connects again
 			vrt.Sleep(time.Duration(k)*interval + delta)
 			if mode == "disconnect-reconnect" {
 				_ = s.cl.Disconnect()
+			} else if mode == "drop-resume" {
+				conn.close()
 			} else {
 				conn.send("</stream:stream>")
 				vrt.WaitIdle()
@@ -169,8 +209,14 @@ func c18client(intervalS int64, mode string, k int, delta time.Duration) func() 
 			}
 			vrt.WaitIdle()
 			end = vrt.VNow()
-			if err := s.cl.Connect(); err != nil {
-				vrt.Fail("C18|harness|reconnect", "%v", err)
+			var rerr error
+			if mode == "drop-resume" {
+				rerr = s.cl.Resume() // what a StreamManager calls
+			} else {
+				rerr = s.cl.Connect()
+			}
+			if rerr != nil {
+				vrt.Fail("C18|harness|reconnect", "%v", rerr)
 				return
 			}
 			vrt.WaitIdle()
@@ -234,6 +280,22 @@ func c18client(intervalS int64, mode string, k int, delta time.Duration) func() 
 			if ev.State.state == StateDisconnected {
 				nDisc++
 			}
+		}
+		if mode == "after-failed-hook" {
+			total := time.Duration(k+4)*interval + 20*time.Second
+			if want := int(total / interval); len(pings) != want {
+				vrt.Fail("C18|ping-count|after-failed-hook", "%s: %d keepalives in %s on the session that followed a Connect whose post-connect hook failed, want %d (times %v): a keepalive loop of the failed attempt is still running", cfg, len(pings), total, want, pings)
+			}
+			n0 := 0
+			for _, rec := range *s.conn(0).raw.Peer().Log {
+				if rec.ToSrv && string(rec.Data) == "\n" {
+					n0++
+				}
+			}
+			if n0 != 0 {
+				vrt.Fail("C18|ping-after-session-end|failed-hook", "%s: %d keepalives written on the connection of the failed Connect", cfg, n0)
+			}
+			return
 		}
 		switch mode {
 		case "pingfail":
@@ -302,6 +364,7 @@ func TestVerifC18(t *testing.T) {
 	for _, ivs := range []int64{0, 1, 7} {
 		for k := 1; k <= 3; k++ {
 			scs = append(scs, hx.Scenario{Name: fmt.Sprintf("client/interval=%ds/pingfail=%d", ivs, k), Opt: vrt.Options{Bound: 1, Horizon: 100000}, Body: c18client(ivs, "pingfail", k, 0), Verdict: c18verdict})
+			scs = append(scs, hx.Scenario{Name: fmt.Sprintf("client/interval=%ds/pingfail-timeout=%d", ivs, k), Opt: vrt.Options{Bound: 1, Horizon: 100000}, Body: c18client(ivs, "pingfail-timeout", k, 0), Verdict: c18verdict})
 			for _, d := range []time.Duration{-time.Millisecond, 0, time.Millisecond} {
 				scs = append(scs, hx.Scenario{Name: fmt.Sprintf("client/interval=%ds/drop=%d*i%+d", ivs, k, d), Opt: vrt.Options{Bound: 1, Horizon: 100000}, Body: c18client(ivs, "drop", k, d), Verdict: c18verdict})
 			}
@@ -309,7 +372,12 @@ func TestVerifC18(t *testing.T) {
 		for _, d := range []time.Duration{-time.Millisecond, 0, 300 * time.Millisecond} {
 			scs = append(scs, hx.Scenario{Name: fmt.Sprintf("client/interval=%ds/disconnect-reconnect%+d", ivs, d), Opt: vrt.Options{Bound: c18rb, Horizon: 100000}, Body: c18client(ivs, "disconnect-reconnect", 1, d), Verdict: c18verdict})
 			scs = append(scs, hx.Scenario{Name: fmt.Sprintf("client/interval=%ds/server-close-reconnect%+d", ivs, d), Opt: vrt.Options{Bound: 1, Horizon: 100000}, Body: c18client(ivs, "server-close-reconnect", 1, d), Verdict: c18verdict})
+			scs = append(scs, hx.Scenario{Name: fmt.Sprintf("client/interval=%ds/drop-resume%+d", ivs, d), Opt: vrt.Options{Bound: 1, Horizon: 100000}, Body: c18client(ivs, "drop-resume", 1, d), Verdict: c18verdict})
 		}
+		for _, d := range []time.Duration{-time.Millisecond, 0} {
+			scs = append(scs, hx.Scenario{Name: fmt.Sprintf("client/interval=%ds/drop-refused-resume%+d", ivs, d), Opt: vrt.Options{Bound: c18rb + 1, Horizon: 100000, TouchOn: []string{"conn"}}, Body: c18client(ivs, "drop-refused-resume", 1, d), Verdict: c18verdict})
+		}
+		scs = append(scs, hx.Scenario{Name: fmt.Sprintf("client/interval=%ds/hook-fails-reconnect", ivs), Opt: vrt.Options{Bound: 1, Horizon: 100000}, Body: c18client(ivs, "hook-fails-reconnect", 2, 0), Verdict: c18verdict})
 		scs = append(scs, hx.Scenario{Name: fmt.Sprintf("client/interval=%ds/idle", ivs), Opt: vrt.Options{Bound: 1, Horizon: 100000}, Body: c18client(ivs, "idle", 2, 0), Verdict: c18verdict})
 	}
 	if hx.Main("C18", scs) == 2 {
